@@ -75,7 +75,7 @@ type interp struct {
 	loopVars  [][]string // names bound by enclosing loop headers, innermost last; nil entries for non-loop blocks
 }
 
-const stepBudget = 4000
+const stepBudget = 20000
 
 func (in *interp) tick() {
 	in.steps++
